@@ -765,8 +765,16 @@ fn emit_desc<Pk: FromStrKey + EncLen>(out: &mut String, d: &Descriptor<Pk>, kt: 
     writeln!(out, "DSTR {}", s).unwrap();
     match catch_unwind(AssertUnwindSafe(|| Descriptor::<Pk>::from_str(&s))) {
         Ok(Ok(d2)) => {
-            let same = d2.to_string() == s && d2 == *d;
-            writeln!(out, "DRP {}", if same { "ok-eq" } else { "ok-ne" }).unwrap()
+            // `pkh(K)` printed by Bare(c:pk_h(K)) re-parses as the Pkh descriptor: same string,
+            // same output script, another Rust value -- reported as an alias, not as a difference
+            let verdict = if d2.to_string() != s {
+                "ok-ne"
+            } else if d2 == *d {
+                "ok-eq"
+            } else {
+                "ok-alias"
+            };
+            writeln!(out, "DRP {}", verdict).unwrap()
         }
         Ok(Err(e)) => writeln!(out, "DRP err:{}", class_of(&e)).unwrap(),
         Err(_) => writeln!(out, "DRP panic").unwrap(),
